@@ -64,7 +64,9 @@ def check(rep):
     iso_names = {n for n, c in iso["boxtypes"]}
     differ("boxtype_of_code", sorted(e for e in u["boxtype_known"] if e in iso_bt or e[1] in iso_names), iso_bt,
            "BoxType::from(u32) names a variant for exactly the standard's codes", fails)
-    differ("boxtype_of_code_vs_source_table", sorted(u["boxtype_known"]), sorted([[c, n] for n, c in gen["boxtype_table"]]),
+    # (the sweep binary names the variants it was written against; a variant added to the enumeration since is reported as "?": it is identified by its code)
+    gen_name = {c: n for n, c in gen["boxtype_table"]}
+    differ("boxtype_of_code_vs_source_table", sorted([c, n if n != "?" else gen_name.get(c, "?")] for c, n in u["boxtype_known"]), sorted([[c, n] for n, c in gen["boxtype_table"]]),
            "compiled BoxType::from(u32) vs the table regenerated from the source", ties)
     for key, what in (("boxtype_roundtrip_fail", "u32 -> BoxType -> u32 is the identity"),
                       ("fourcc_fail", "u32 <-> FourCC <-> bytes are lossless"),
